@@ -755,6 +755,28 @@ def roundtrip_request(info, sid, ser, parser, snap, d):
             "doc": info.node(d)}
 
 
+def real_form_ok(info, ser, parser, t_name, attrs_enc):
+    """the row (type, attributes) of the schema part against the running library: a filled node of that type is serialised
+    by the real serializer and its HTML parsed (as an open slice) by the real parser — True when a node of the type with
+    the same attributes comes back, False when not (or the serializer has no `toDOM` for it), None when no node can be built"""
+    typ = info.schema.nodes[t_name]
+    try:
+        node = typ.create_and_fill({k: json.loads(v) for k, v in attrs_enc})
+    except Exception:  # noqa: BLE001
+        return None
+    if node is None:
+        return None
+    st, sl = outcome(lambda: parser.parse_slice(html_fragment(str(ser.serialize_node(node)))), 5.0)
+    if st != "ok":
+        return False
+    found = []
+    sl.content.descendants(lambda n, pos, parent, i: found.append(n) or True)
+    for n in found:
+        if n.type is typ:
+            return info.attrs(typ, n.attrs) == info.attrs(typ, node.attrs)
+    return False
+
+
 def roundtrip_schema_tie(ctx, names):
     """Per bundled schema, once per run: (1) the Lean literals of lean/Gen/RoundTrip.lean are the rendering of the tables
     the round-trip requests of this run carry (`rt_tables.tables` of the harness's own schema object; the translator built
@@ -787,7 +809,19 @@ def roundtrip_schema_tie(ctx, names):
         ctx.count("model_requests")
         e["rtSchemaOk_driver"] = out.get("rtSchemaOk")
         forms = []
+        ser_real, parser_real = DOMSerializer.from_schema(info.schema), DOMParser.from_schema(info.schema)
         for t, a, f in out.get("forms", []):
+            # the row against the running library (relational: a row the schema part accepts is read back by the real code)
+            real = real_form_ok(info, ser_real, parser_real, info.node_names[t], a)
+            ctx.case(["rt-schema-row", name, t, a], sample={"op": "schema-part row vs real serialise+parse", "schema": name, "type": info.node_names[t]})
+            if real is None:
+                ctx.count("rt_schema_row:no-node")
+            elif f is not None and not real:
+                ctx.mismatch("roundtrip-schema-row", {"schema": name, "type": info.node_names[t], "attrs": a},
+                             "read back by the real parser (the schema part accepts this row: %s)" % f, "not read back")
+            else:
+                ctx.count("rt_schema_row:accepted-and-read-back" if f is not None else
+                          "rt_schema_row:rejected-and-not-read-back" if not real else "rt_schema_row:rejected-but-read-back")
             row = info.node_names[t] + "".join(" %s=%s" % (k, v) for k, v in a) + (
                 " is NOT read back" if f is None else " <-> <%s>%s" % (f[0], "" if f[1] is None else " (preserve_whitespace %s)" % json.dumps(f[1])))
             if row not in forms:
